@@ -67,3 +67,43 @@ Definition body4 (ds : list pydp) : bytes :=
 Definition py_dumps4 (ds : list pydp) : bytes :=
   let b := body4 ds in
   [128; 4] ++ (if N.of_nat (length b) <? 4 then b else 149 :: le_bytes 8 (N.of_nat (length b)) ++ b).
+
+(* ---- protocol 1 (binary opcodes without the PROTO header; tuples are MARK ... TUPLE, there is no TUPLE2) ---- *)
+Definition enc_item1 (d : pydp) (i : N) : bytes :=
+  [40] ++ enc_str (d_name d) i ++ [40] ++ enc_num (d_ts d) ++ enc_num (d_val d) ++ [116] ++ put (i + 1) ++ [116] ++ put (i + 2).
+Fixpoint enc_items1 (ds : list pydp) (i : N) : bytes :=
+  match ds with [] => [] | d :: r => enc_item1 d i ++ enc_items1 r (i + 3) end.
+Definition py_dumps1 (ds : list pydp) : bytes :=
+  [93] ++ put 0 ++
+  match ds with
+  | [] => []
+  | [d] => enc_item1 d 1 ++ [97]
+  | _ => [40] ++ enc_items1 ds 1 ++ [101]
+  end ++ [46].
+
+(* ---- protocol 0 (text opcodes): MARK LIST PUT, per item MARK UNICODE name PUT MARK INT/FLOAT INT/FLOAT TUPLE PUT TUPLE PUT APPEND.
+   frepr: repr() of the float with the given bits (an oracle value per float, supplied by CPython on every run).
+   Names: the characters pickle writes verbatim (ASCII without NUL, LF, CR, SUB and backslash). ---- *)
+Section Proto0.
+  Variable frepr : N -> bytes.
+  Definition put0 (i : N) : bytes := 112 :: N_to_dec i ++ [10].
+  Definition enc_num0 (x : pynum) : bytes :=
+    match x with PyInt n => 73 :: N_to_dec n ++ [10] | PyFloat b => 70 :: frepr b ++ [10] end.
+  Definition enc_item0 (d : pydp) (i : N) : bytes :=
+    [40; 86] ++ d_name d ++ [10] ++ put0 i ++ [40] ++ enc_num0 (d_ts d) ++ enc_num0 (d_val d) ++
+    [116] ++ put0 (i + 1) ++ [116] ++ put0 (i + 2) ++ [97].
+  Fixpoint enc_items0 (ds : list pydp) (i : N) : bytes :=
+    match ds with [] => [] | d :: r => enc_item0 d i ++ enc_items0 r (i + 3) end.
+  Definition py_dumps0 (ds : list pydp) : bytes := [40; 108] ++ put0 0 ++ enc_items0 ds 1 ++ [46].
+End Proto0.
+
+Definition plain_char (c : N) : bool := (c <? 128) && negb (c =? 0) && negb (c =? 10) && negb (c =? 13) && negb (c =? 26) && negb (c =? 92).
+Definition dp_ok0 (d : pydp) : bool := forallb plain_char (d_name d) && num_ok (d_ts d) && num_ok (d_val d).
+
+(* what pickle.dumps(ds, protocol) writes, by protocol (1; 2 and 3; 4) *)
+Definition payload (pd : N * list pydp) : bytes :=
+  if fst pd =? 4 then py_dumps4 (snd pd) else if fst pd =? 1 then py_dumps1 (snd pd) else py_dumps (fst pd) (snd pd).
+
+(* ... protocol 0 included, given the repr() texts of the floats *)
+Definition payload_r (frepr : N -> bytes) (pd : N * list pydp) : bytes :=
+  if fst pd =? 0 then py_dumps0 frepr (snd pd) else payload pd.
